@@ -109,6 +109,7 @@ type S struct {
 	Ref      string `json:",omitempty"` // SRaw: reference text (if different)
 	Type     string `json:",omitempty"` // SVarDecl / SDecl with explicit type
 	Label    string `json:",omitempty"`
+	RetIter  bool   `json:",omitempty"` // SReturn in a generator with a non-nil iterator operand
 }
 
 type Func struct {
@@ -448,6 +449,10 @@ func (o *w) stmt(s *S) {
 		}
 	case SReturn:
 		switch {
+		case s.RetIter && m.Ref:
+			// go-co: the operand is evaluated and ignored, the generator ends
+			o.line("_ = %s", s.E.str(m))
+			o.line("return")
 		case s.E != nil:
 			o.line("return %s", s.E.str(m))
 		case s.Nil && !m.Ref:
